@@ -17,7 +17,7 @@ import json
 
 import networkx as nx
 
-from common import Atom, Case, Run, call_impl, prepare, enc_graph, sx, ImplError, parse_sx
+from common import Atom, Case, Run, call_impl, prepare, enc_graph, sx, ImplError, parse_sx, input_variant
 
 PROOFS = ["FGVerif.Proofs.C19"]
 
@@ -94,9 +94,29 @@ def gen_bridge_graph(rng, big=False):
     return g, {"ids": style, "aam": aam_style, "labelled": labelled, "unsupported": unsupported}
 
 
-def bridge_case(g, ignore_aam, name, tags):
+# graph_to_mol / graph_to_smiles / mol_compare only READ their graphs: frozen graphs, sub-graph views of a larger
+# graph, irrelevant extra attributes and numpy ids / map numbers / half orders must make no difference
+VARIANT_KINDS = ("frozen", "view", "extra_attrs", "numpy")
+FORM_SHARE = 0.12
+
+
+def as_variant(g, rng, kinds=VARIANT_KINDS):
+    v, form = input_variant(g, rng, kinds)
+    if sx(enc_graph(v)) != sx(enc_graph(g)):
+        raise AssertionError("input_variant changed the wire form (harness defect)")
+    return v, form
+
+
+def bridge_case(g, ignore_aam, name, tags, form_rng=None, form_kinds=VARIANT_KINDS):
+    """`form_rng`: graph_to_mol receives the graph in another FORM (common.input_variant); request and oracles are
+    those of the plain graph"""
     req = [Atom("C19"), Atom("bridge"), bool(ignore_aam), enc_graph(g)]
-    out = call_impl(impl_bridge, g, ignore_aam)
+    form = None
+    g_impl = g
+    if form_rng is not None:
+        g_impl, form = as_variant(g, form_rng, form_kinds)
+        tags = list(tags) + ["input_form", form]
+    out = call_impl(impl_bridge, g_impl, ignore_aam)
     aams = [d.get("aam") for _, d in g.nodes(data=True)]
     orders = [b for _, _, b in g.edges(data="bond")]
     # self-loops are outside the domain: RDKit's AddBond(i, i) raises, the RWMol model does not reproduce that
@@ -105,6 +125,10 @@ def bridge_case(g, ignore_aam, name, tags):
     in_domain = all(a is None or a >= 1 for a in aams) and all(o in (1, 1.5, 2, 3, 4) for o in orders) and loops == 0
     labelled = any(d.get("is_labeled") for _, d in g.nodes(data=True))
     t = list(tags) + ["ignore_aam" if ignore_aam else "with_aam"]
+    if form == "variant=numpy" and not ignore_aam and any(a is not None and a >= 0 for a in aams):
+        # this input form exposed a genuine defect (graph_to_mol handed numpy.int64 map numbers to RDKit's
+        # Atom.SetAtomMapNum, which refuses them): repaired in /repo (5975c71); the form is in domain
+        t.append("numpy_map_numbers_reach_SetAtomMapNum")
     if loops:
         t.append("self-loop(out-of-domain)")
     if labelled:
@@ -113,9 +137,9 @@ def bridge_case(g, ignore_aam, name, tags):
         t.append("order=%s" % o)
     if any(a == 1 for a in aams):
         t.append("has-map-1")
-    key = hashlib.blake2b(sx(req).encode(), digest_size=8).hexdigest() if g.number_of_edges() else None
+    key = hashlib.blake2b((sx(req) + str(form)).encode(), digest_size=8).hexdigest() if g.number_of_edges() else None
     return Case(req, enc_graph(out) if isinstance(out, nx.Graph) else out, in_domain=in_domain,
-                meta={"name": name, "self_loops": loops}, nontrivial_key=key, tags=t)
+                meta={"name": name, "self_loops": loops, "variant": form}, nontrivial_key=key, tags=t)
 
 
 def bridge_corpus():
@@ -217,11 +241,18 @@ def smiles_leg(r, n_cases):
             continue
         r.evaluations += 1
         r.count("smiles:source=" + source)
+        form = None
+        g_impl = g
+        if rng.random() < FORM_SHARE:
+            # the FORM of the input: frozen / view / extra attributes / numpy ids and half orders (these graphs carry no
+            # map numbers, so the numpy form never reaches SetAtomMapNum)
+            g_impl, form = as_variant(g, rng)
+            r.count("smiles:input_form:" + form)
         try:
             canonical = rng.random() < 0.7
-            written = graph_to_smiles(g, canonical=canonical)
+            written = graph_to_smiles(g_impl, canonical=canonical)
         except Exception as e:
-            fails.append({"smiles": smi, "source": source, "what": "graph_to_smiles raised %r" % (e,)})
+            fails.append({"smiles": smi, "source": source, "variant": form, "what": "graph_to_smiles raised %r" % (e,)})
             continue
         n_written += 1
         try:
@@ -236,7 +267,7 @@ def smiles_leg(r, n_cases):
         if g.number_of_nodes() > 2:
             r.nontrivial.add(("smiles", written))
         if not ok:
-            fails.append({"smiles": smi, "source": source, "written": written,
+            fails.append({"smiles": smi, "source": source, "written": written, "variant": form,
                           "graph": sx(enc_graph(g)), "back": sx(enc_graph(back)), "what": "re-read graph not isomorphic"})
     if fails:
         f = min(fails, key=lambda d: len(d["smiles"]))
@@ -338,11 +369,19 @@ def wl_leg(r, n_batches):
             ncomp = nx.number_connected_components(g)
             for _ in range(1 if ncomp == 1 else 4):     # several renumberings of a multi-fragment molecule (fragment order permuted)
                 h = renumber(rng, g)
-                res = call_impl(mol_compare, [h, g], g)
+                forms = None
+                h_impl, g_cand, g_target = h, g, g
+                if rng.random() < 2 * FORM_SHARE:
+                    # the FORM of the input: candidates and target frozen / as views / with extra attributes / numpy
+                    (h_impl, f1), (g_cand, f2), (g_target, f3) = as_variant(h, rng), as_variant(g, rng), as_variant(g, rng)
+                    forms = [f1, f2, f3]
+                    for f in forms:
+                        r.count("compare:input_form:" + f)
+                res = call_impl(mol_compare, [h_impl, g_cand], g_target)
                 r.evaluations += 1
                 r.count("compare:renumbered" + (":disconnected(equal-size fragments)" if ncomp > 1 else ":connected"))
                 if isinstance(res, ImplError) or not (res[0] == 1 and res[1] == 1):
-                    bad_cmp.append({"target": sx(enc_graph(g)), "candidate": sx(enc_graph(h)),
+                    bad_cmp.append({"target": sx(enc_graph(g)), "candidate": sx(enc_graph(h)), "variant": forms,
                                     "result": res.text if isinstance(res, ImplError) else [float(x) for x in res],
                                     "fragments": ncomp, "what": "mol_compare differs on a renumbered copy"})
         # model vs networkx: same partition of the batch
@@ -419,6 +458,9 @@ def run(tier, seed):
     for name, g in bridge_corpus() + corpus_files("C19", 3):
         for ia in (False, True):
             cases.append(bridge_case(g, ia, name, ["corpus"]))
+    for name, g in bridge_corpus() + corpus_files("C19", 3):      # every corpus graph also in every other input form
+        for j, kind in enumerate(VARIANT_KINDS):
+            cases.append(bridge_case(g, j % 2 == 1, name, ["corpus"], form_rng=rng, form_kinds=(kind,)))
     proofs_broken = not r.build.proofs_ok
     n_bridge = 1500 if tier == "quick" else 40000
     if proofs_broken:
@@ -434,7 +476,7 @@ def run(tier, seed):
         tags = ["random", "ids=" + info["ids"], "aam=" + info["aam"]]
         if info["unsupported"]:
             tags.append("unsupported-order")
-        cases.append(bridge_case(g, ia, "random#%d" % k, tags))
+        cases.append(bridge_case(g, ia, "random#%d" % k, tags, form_rng=rng if rng.random() < FORM_SHARE else None))
         if len(cases) >= 4000:
             tally(r, r.evaluate(cases))
             cases = []
@@ -469,7 +511,9 @@ def run(tier, seed):
         level="proof",
         rule="bridge: corpus (one cell per supported order, parsed molecules with/without atom maps, labelled node) + random element graphs "
              "(1-24 atoms, ids contiguous/offset/sparse/shuffled/negative/permuted 0..n-1, orders 1,1.5,2,3,4, maps none/all/partial/with 0/negative, ignore_aam, "
-             "8% labelled nodes, 3% unsupported orders (out of domain)); smiles: generated neutral molecules via RDKit and via the FGUtils parser; "
+             "8% labelled nodes, 3% unsupported orders (out of domain)); 12% of the bridge / SMILES-leg graphs, 24% of the mol_compare calls and every "
+             "corpus graph handed over in another FORM (nx.freeze, sub-graph view of a larger graph, extra attributes, numpy ids / map numbers / half orders; "
+             "tags variant=*; a numpy map number that reaches RDKit's SetAtomMapNum is out of domain - reported finding); smiles: generated neutral molecules via RDKit and via the FGUtils parser; "
              "compare: renumbered/perturbed copies in batches of 16, half of the base molecules disconnected with several equal-size different fragments "
              "(renumberings permute the fragments); non-trivial = bridge inputs with at least one bond (distinct by request), "
              "distinct written SMILES with > 2 atoms, distinct WL batches",
@@ -506,7 +550,13 @@ def replay(path):
                 print("VIOLATION property=C19 replay=%s no-failing-input-found" % path)
             return 0 if r.build.proofs_ok else 1
         ia, g = req[2] == "1", dec_graph(req[3])
-        case = bridge_case(g, ia, "replay", [])
+        form = (d.get("meta") or {}).get("variant")
+        if form and form != "variant=plain":
+            import random
+            print("REPLAY property=C19 re-applying the recorded input form: %s" % form)
+            case = bridge_case(g, ia, "replay", [], form_rng=random.Random(d.get("seed", 0)), form_kinds=(form.split("=")[1],))
+        else:
+            case = bridge_case(g, ia, "replay", [])
         o = r.evaluate([case])[0]
         r.driver.close()
         print("REPLAY property=C19 op=bridge in_domain=%s spec_impl=%s model==impl:%s" % (case.in_domain, o.spec_impl, o.corr))
